@@ -41,6 +41,8 @@ class Contract:
     merge_except: List[str] = field(default_factory=list)      # if-statements (labels like 'If#2') that still fork when merge_ifs is on
     merge_ifs: bool = False                                    # merge the two branches of an if when both fall through
     ghost_init: Dict[str, str] = field(default_factory=dict)    # initial values of ghost variables (prover's choice; assumed at entry only)
+    functional: Optional[List[str]] = None                     # deterministic int-valued function: heap keys ("Class.field") it may read; the result at a
+                                                               # call site equals F_<qname>(arguments, those heap arrays) -- equal inputs give equal results
 
 
 @dataclass
@@ -134,5 +136,6 @@ class Registry:
             mod.spec = self.spec
             mod.lemma = self.lemma
             mod.fields = self.extra_fields.update
+            mod.shared = self.__dict__.setdefault('shared', {})     # names exported by earlier contract files
             spec.loader.exec_module(mod)
         return self
